@@ -13,6 +13,7 @@
 #undef private
 #undef protected
 #include "random.hpp"
+#include "transpositionTable.hpp"
 #include "harness.hpp"
 
 std::string vFenErrClass(const std::string& msg) {
@@ -110,6 +111,42 @@ static std::string handle(const std::vector<std::string>& a) {
                 out += TextIO::toFEN(pos);
             }
             return out.empty() ? "none" : out;
+        }
+        if (op == "ttpv" && a.size() >= 3) {
+            // C03: PV extraction under adversarial table contents.  Plants a chain of hash moves (legal ones, moves that are
+            // only pseudo-legal, garbage) along a line and returns what TranspositionTable::extractPVMoves makes of it.
+            U64 seed = vToU64(a[1]);
+            Position root = TextIO::readFEN(vFenOf(a, 2, a.size()));
+            Random rnd(seed);
+            MoveList rl; MoveGen::pseudoLegalMoves(root, rl); MoveGen::removeIllegal(root, rl);
+            if (rl.size == 0) return "none";
+            Move first = rl[rnd.nextInt(rl.size)];
+            TranspositionTable tt(1 << 12);
+            Position pos(root);
+            UndoInfo ui;
+            pos.makeMove(first, ui);
+            for (int step = 0; step < 12; step++) {
+                MoveList ps; MoveGen::pseudoLegalMoves(pos, ps);
+                bool inChk = MoveGen::inCheck(pos);
+                std::vector<Move> legal, illegal;
+                for (int i = 0; i < ps.size; i++)
+                    (MoveGen::isLegal(pos, ps[i], inChk) ? legal : illegal).push_back(ps[i]);
+                Move m; bool cont = false;
+                int r = rnd.nextInt(100);
+                if (!illegal.empty() && r < 40) m = illegal[rnd.nextInt((int)illegal.size())];
+                else if (r < 55) m = Move(Square(rnd.nextInt(64)), Square(rnd.nextInt(64)), rnd.nextInt(3) == 0 ? rnd.nextInt(13) : 0);
+                else if (!legal.empty()) { m = legal[rnd.nextInt((int)legal.size())]; cont = true; }
+                else break;
+                m.setScore(rnd.nextInt(200) - 100);
+                tt.insert(pos.historyHash(), m, TType::T_EXACT, step + 1, 5, 0);
+                if (!cont) break;
+                pos.makeMove(m, ui);
+            }
+            std::vector<Move> pv;
+            tt.extractPVMoves(root, first, pv);
+            std::vector<std::string> v;
+            for (const Move& m : pv) v.push_back(TextIO::moveToUCIString(m));
+            return "pv " + vJoin(v);
         }
         if (op == "atk" && a.size() == 4) {
             U64 pc = vToU64(a[1]), s = vToU64(a[2]), occ = vToU64(a[3]);
